@@ -15,6 +15,7 @@ EXTENDS VrfRtcMech, TraceUtil
 
 ASSUME TLCSet(3, {})
 ASSUME TLCSet(4, {})
+ASSUME TLCSet(5, {})
 
 VARIABLES l, obs, hasObs, tid
 tvars == <<cfg, up, ceOn, nin, cein, loc, vrfs, mem, wait, eor, deadline, now, wN1, wN2, wCE, l, obs, hasObs, tid>>
@@ -26,6 +27,7 @@ IsEvent(e) == l <= TLen /\ Trace[l].ev = e /\ l' = l + 1
 Row == Trace[l]
 TakeObs == obs' = Row.obs /\ hasObs' = TRUE /\ UNCHANGED tid
 
+OCe(s)   == {[x |-> s[i].x, v |-> s[i].v] : i \in 1..Len(s)}
 NormR(r) == [rd |-> r.rd, x |-> r.x, label |-> r.label, rts |-> SeqToSet(r.rts), v |-> r.v]
 NormM(m) == [as |-> m.as, rt |-> m.rt, id |-> m.id]
 NormV(w) == [name |-> w.name, rd |-> w.rd, label |-> w.label, imp |-> SeqToSet(w.imp), exp |-> SeqToSet(w.exp)]
@@ -40,7 +42,11 @@ TReset == /\ IsEvent("Reset")
 
 TUp     == IsEvent("Up") /\ MUp(Row.p) /\ TakeObs
 TDown   == IsEvent("Down") /\ MDown(Row.p) /\ TakeObs
-TCeUp   == IsEvent("CeUp") /\ MCeUp /\ TakeObs
+(* the one-per-prefix selection of the full transfer is taken from the observation when it is a
+   possible one *)
+TCeUp   == /\ IsEvent("CeUp") /\ HasVrf(CeVrf)
+           /\ MCeUp(IF OCe(Row.obs.ce) \in CeDumps THEN OCe(Row.obs.ce) ELSE CHOOSE d \in CeDumps : TRUE)
+           /\ TakeObs
 TCeDown == IsEvent("CeDown") /\ MCeDown /\ TakeObs
 TVAnn   == IsEvent("VAnn") /\ MVAnn(NormR(Row.r)) /\ TakeObs
 TVWd    == IsEvent("VWd") /\ MVWd(NormR(Row.r)) /\ TakeObs
@@ -63,7 +69,6 @@ TraceSpec == TraceInit /\ [][TraceNext]_tvars
 (* observations as sets *)
 OVpn(s)  == {[rd |-> s[i].rd, x |-> s[i].x, label |-> s[i].label, rts |-> SeqToSet(s[i].rts), v |-> s[i].v] : i \in 1..Len(s)}
 OGvpn(s) == {[rd |-> s[i].rd, x |-> s[i].x, label |-> s[i].label, rts |-> SeqToSet(s[i].rts), v |-> s[i].v, src |-> s[i].src] : i \in 1..Len(s)}
-OCe(s)   == {[x |-> s[i].x, v |-> s[i].v] : i \in 1..Len(s)}
 OVrfs(s) == {[name |-> s[i].name, rd |-> s[i].rd, imp |-> SeqToSet(s[i].imp), exp |-> SeqToSet(s[i].exp)] : i \in 1..Len(s)}
 OView(s) == {[rd |-> s[i].rd, x |-> s[i].x, v |-> s[i].v, src |-> s[i].src] : i \in 1..Len(s)}
 
@@ -90,9 +95,12 @@ C17_VrfVisible ==
                        /\ Len(s) = Cardinality(VrfVisible(n))
                        /\ \A i \in 1..Len(s) : s[i].plain
 
-(* C17: ... and re-advertised to the VRF's attached neighbour as a plain route *)
-C17_CeExport == (hasObs /\ up["CE"]) => /\ OCe(obs.ce) = CeExport
-                                        /\ Len(obs.ce) = Cardinality(CeExport)
+(* C17: ... and re-advertised to the VRF's attached neighbour as a plain route: the CE holds only
+   plain forms of routes its VRF imports, one per prefix ... *)
+C17_CeExport == (hasObs /\ up["CE"]) => /\ CeSound(OCe(obs.ce))
+                                        /\ Len(obs.ce) = Cardinality(OCe(obs.ce))
+(* ... and every prefix for which the VRF imports a route *)
+C17_CeComplete == (hasObs /\ up["CE"]) => CeComplete(OCe(obs.ce))
 
 (* C17: a route originated in a VRF is exported with the VRF's RD, label and export targets:
    in the global VPN table and towards the VPN neighbour *)
@@ -112,6 +120,7 @@ C17_RtcExact_KF ==
   hasObs => /\ up["N1"] => OVpn(obs.vpn["N1"]) = wN1
             /\ up["N2"] => OVpn(obs.vpn["N2"]) = AllExport("N2")
 C17_CeExport_KF == (hasObs /\ up["CE"]) => OCe(obs.ce) = wCE /\ Len(obs.ce) = Cardinality(wCE)
+C17_CeComplete_KF == C17_CeExport_KF
 
 (* informational conformance: code = mechanism model (with the Defects of the cfg) *)
 Conf_Views == hasObs => /\ up["N1"] => OVpn(obs.vpn["N1"]) = wN1
@@ -122,11 +131,13 @@ Conf_Views == hasObs => /\ up["N1"] => OVpn(obs.vpn["N1"]) = wN1
 (* model-level scan (cfg VrfRtcScan, Defects = the known ones): traces in which the mechanism WITH
    the known defects leaves the property layer.  Registers 3 / 4 collect their ids. *)
 TaintRtc == up["N1"] /\ (IF wait THEN ~(wN1 \subseteq RtcExport("N1")) ELSE wN1 # RtcExport("N1"))
-TaintCe  == up["CE"] /\ wCE # CeExport
+TaintCe  == up["CE"] /\ ~CeSound(wCE)
+TaintCeMiss == up["CE"] /\ ~CeComplete(wCE)
 ScanConstraint == /\ Hwm(l)
                   /\ IF TaintRtc THEN TLCSet(3, TLCGet(3) \cup {tid}) ELSE TRUE
                   /\ IF TaintCe THEN TLCSet(4, TLCGet(4) \cup {tid}) ELSE TRUE
-ScanAccepted == Accepted /\ PrintT("VPOUT " \o ToJson([tainted |-> [rtc |-> TLCGet(3), ce |-> TLCGet(4)]]))
+                  /\ IF TaintCeMiss THEN TLCSet(5, TLCGet(5) \cup {tid}) ELSE TRUE
+ScanAccepted == Accepted /\ PrintT("VPOUT " \o ToJson([tainted |-> [rtc |-> TLCGet(3), ce |-> TLCGet(4), cemiss |-> TLCGet(5)]]))
 
 (* distinct non-trivial cases: states with a VPN route and either an RTC neighbour holding a
    membership or a configured VRF *)
